@@ -47,6 +47,43 @@ def qldefs_path():
     return os.path.join(_QLDEFS_DIR, "verif_qldefs.py")
 
 
+USER_TYPE = 5100
+USER_DEF_SRC = """import pyrtma
+from pyrtma.core_defs import *
+from pyrtma.message_base import MessageMeta
+from pyrtma.validators import Int32
+
+
+@pyrtma.message_def
+class MDF_VERIF_USER(pyrtma.MessageData, metaclass=MessageMeta):
+    type_id = 5100
+    type_name = "VERIF_USER"
+    type_hash = 0x5100
+    type_size = 8
+    type_source = ""
+    type_def = ""
+    a: Int32 = Int32()
+    b: Int32 = Int32()
+
+
+MT_VERIF_USER = 5100
+
+# what a compiled definitions file ends with
+from pyrtma.context import _update_context
+_update_context(__name__)
+"""
+
+
+def qldefs_user_path():
+    """the definitions of a site that also has a message type of its own (the core-only file does not know it)"""
+    base = os.path.dirname(qldefs_path())
+    p = os.path.join(base, "verif_qldefs_user.py")
+    if not os.path.exists(p):
+        with open(p, "w") as f:
+            f.write(USER_DEF_SRC)
+    return p
+
+
 class DataLoggerRun:
     def __init__(self, choices, forced=None):
         self.ch = choices
@@ -102,15 +139,31 @@ class DataLoggerRun:
         if self.high_ids:
             self.register_high_ids()
             self.res.probes["high_type_ids"] += 1
+        # a message type of the site's own: the quicklogger files are first looked at with the core-only
+        # definitions (which skip it, as designed) and then read with the site's definitions
+        self.user_type = ("quicklogger" in fmts) and not self.high_ids and ch.flag("cfg.user_type", 1, 3)
+        if self.user_type:
+            self.register_user_type()
+            self.msg_types.append(USER_TYPE)
+            self.res.probes["user_type_in_quicklogger"] += 1
         if self.tc_msgs:
             self.res.probes["timecode_headers"] += 1
         for i in range(nds):
             fmt = fmts[i]
-            sel = ch.weighted("cfg.sel", [(2, "all"), (3, "some"), (1, "one")])
+            sel = ch.weighted("cfg.sel", [(4, "all"), (6, "some"), (2, "one"), (1, "dup"), (1, "all_plus")])
             if sel == "all":
                 types = [ALL]
             elif sel == "one":
                 types = [ch.choose("cfg.t", [t for t in self.msg_types if t > 0])]
+            elif sel == "dup":
+                # a redundant selection: the same type listed more than once
+                t1 = ch.choose("cfg.t", [t for t in self.msg_types if t > 0])
+                types = [t1, ch.choose("cfg.t", [t for t in self.msg_types if t > 0]), t1]
+                self.res.probes["redundant_selection"] += 1
+            elif sel == "all_plus":
+                # ... or all types next to explicit ones
+                types = [ch.choose("cfg.t", [t for t in self.msg_types if t > 0]), ALL]
+                self.res.probes["redundant_selection"] += 1
             else:
                 types = [t for t in self.msg_types if t > 0 and ch.flag("cfg.tsel", 1, 2)] or [26]
             sub = ch.choose("cfg.subdiv", [0, 0, 30, 600])
@@ -165,6 +218,22 @@ class DataLoggerRun:
             return MDF_HIGH
         self.high_cls = {t: pyrtma.message_def(mk(t)) for t in (9999, 10000)}
 
+    def register_user_type(self):
+        import pyrtma
+        from pyrtma.message_base import MessageMeta
+        from pyrtma.validators import Int32
+
+        class MDF_VERIF_USER(pyrtma.MessageData, metaclass=MessageMeta):
+            type_id = USER_TYPE
+            type_name = "VERIF_USER"
+            type_hash = 0x5100
+            type_size = 8
+            type_source = ""
+            type_def = ""
+            a: Int32 = Int32()
+            b: Int32 = Int32()
+        self.user_cls = pyrtma.message_def(MDF_VERIF_USER)
+
     def _set(self, obj, name, value):
         missing = object()
         old = obj.__dict__.get(name, missing)
@@ -201,6 +270,10 @@ class DataLoggerRun:
         t = ch.choose("msg.type", self.msg_types)
         if t in (9999, 10000):
             d = self.high_cls[t]()
+            d.a = n
+            d.b = -n
+        elif t == USER_TYPE:
+            d = self.user_cls()
             d.a = n
             d.b = -n
         elif t == 26:
@@ -430,6 +503,15 @@ class DataLoggerRun:
                 import contextlib
                 with contextlib.redirect_stdout(io.StringIO()):
                     r.load(p, qldefs_path())
+                    if getattr(self, "user_type", False):
+                        n_core = len(r.messages) + r.skipped
+                        if r.skipped:
+                            self.res.probes["ql_type_skipped_by_core_definitions"] += 1
+                        r = QLReader()
+                        r.load(p, qldefs_user_path())
+                        if len(r.messages) + r.skipped != n_core:
+                            self.res.add("C17", "ql_header_count", f"{os.path.basename(p)}: {n_core} messages with the core "
+                                         f"definitions, {len(r.messages) + r.skipped} with the site's definitions")
                 fh = r.file_header
                 if fh.num_messages != len(r.messages) + r.skipped:
                     self.res.add("C17", "ql_header_count", f"{os.path.basename(p)}: header says {fh.num_messages} messages, "
